@@ -757,6 +757,78 @@ def run_decoders(ctx, n):
     hyp_search(ctx, strat, fn, n, name='C20-decoders')
 
 
+# ------------------------------------------------------------------------------------------
+# part f: a long-lived server; associations that fail, in every way an association can fail, one after the other
+
+FAILURES = ('bad-userinfo', 'abort-at-once', 'handler-boom', 'refused', 'garbage-message', 'no-context')
+
+
+def failing_plan(kind):
+    rq = fd.rq_spec([(1, svc.VERIFICATION, [svc.IMPLICIT])], 16384)
+    echo = ({0x0002: svc.VERIFICATION, 0x0100: 0x0030, 0x0110: 5}, None, 1)
+
+    def plan(dul):
+        if kind == 'bad-userinfo':
+            # legal (PS3.8 does not order the sub-items), but unusual: Maximum Length does not come first
+            spec = dict(rq, items=[dict(it, subs=[{'t': 0x52, 'r': 0, 'name': '1.2.3.4'}] + list(it['subs']))
+                                   if it['t'] == 0x50 else it for it in rq['items']])
+            dul.push_pdu(spec)
+            dul.push_msg(*echo)
+            dul.push_pdu({'t': 5, 'r1': 0, 'r2': 0})
+        elif kind == 'no-context':
+            dul.push_pdu(fd.rq_spec([(1, '1.2.3.4.5.6.7', [svc.IMPLICIT])], 16384))
+            dul.push_pdu({'t': 7, 'r1': 0, 'r2': 0, 'r3': 0, 'source': 0, 'reason': 0})
+        else:
+            dul.push_pdu(rq)
+            if kind == 'abort-at-once':
+                dul.push_pdu({'t': 7, 'r1': 0, 'r2': 0, 'r3': 0, 'source': 2, 'reason': 1})
+            elif kind == 'garbage-message':
+                dul.push_msg({0x0002: svc.VERIFICATION, 0x0100: 0x7777, 0x0110: 5}, None, 1)
+            else:
+                dul.push_msg(*echo)
+                dul.push_pdu({'t': 5, 'r1': 0, 'r2': 0})
+    return plan
+
+
+def long_lived_server(program):
+    """program: [(failure kind, count)]; after each run of failing associations an ordinary one must be served."""
+    from pynetdicom2 import exceptions, sopclass, statuses
+    case = {'part': 'long-lived', 'program': [list(p) for p in program]}
+    cur = {'kind': None}
+
+    def on_rq(asce, assoc):
+        if cur['kind'] == 'refused':
+            raise exceptions.AssociationRejectedError(1, 1, 3)
+
+    def on_echo(context):
+        if cur['kind'] == 'handler-boom':
+            raise Boom('handler failed')
+        return statuses.SUCCESS
+    ae = svc.make_server({'on_association_request': on_rq, 'on_receive_echo': on_echo}, [sopclass.verification_scp])
+    done = 0
+    try:
+        for kind, count in program:
+            for _ in range(count):
+                cur['kind'] = kind
+                try:
+                    fd.run_acceptor(ae, [failing_plan(kind)])
+                except BaseException:       # noqa - the failing association may end however it ends
+                    pass
+                done += 1
+            cur['kind'] = None
+            acc, fac, exc = fd.run_acceptor(ae, [svc.primary_plan([(1, svc.VERIFICATION)], [
+                ({0x0002: svc.VERIFICATION, 0x0100: 0x0030, 0x0110: 9}, None, 1), 'release'])])
+            dul = fac.instances[0]
+            kinds = [r['spec'].get('t') for r in dul.sent_pdus()]
+            served = [(r['fields'].get(0x0120), r['fields'].get(0x0900)) for r in dul.sent_msgs()]
+            if exc is not None or kinds != [2, 6] or served != [(9, 0)]:
+                raise Violation('%s:long-lived:disturbed' % PROP, 'after %d failed associations (the last %d: %s) an ordinary '
+                                'association on the same entity was not served: PDUs sent %r, responses %r, exception %r'
+                                % (done, count, kind, kinds, served, exc), case)
+    finally:
+        ae.server_close()
+
+
 def shard_baton(ctx, job):
     warnings.simplefilter('ignore')
     strat = st.tuples(st.integers(2, 4), st.integers(0, 5), st.lists(st.integers(0, 4), min_size=1, max_size=40),
@@ -813,7 +885,7 @@ def run(ctx):
                 'generator) against one server entity over loopback TCP, R rounds with permuted start order; part b: '
                 '2-4 AssociationAcceptor.handle() bodies plus 0-2 associations the same entity requests itself, sharing one AE on scripted providers, interleaved at every '
                 'provider send/receive and inside every application handler by a baton scheduler whose order is Hypothesis-drawn, each compared with the '
-                'same association run alone; _new_msg_id() from concurrent threads; part c: PDU encode/decode, message fragmentation (bytes and file-like), group-length computation and status classification run in 8 threads under a 1 microsecond switch interval and must equal the single-threaded results; part d: one requesting entity with 2-4 associations open at the same time on scripted peers answering with Hypothesis-drawn result codes 0-4: each association proposes all configured classes and uses exactly what its own peer accepted; part e: 2-4 reassemblers (one per association) fed the fragmented messages of their associations in a drawn interleaving, each compared with being fed alone; non-trivial = >=2 associations '
+                'same association run alone; _new_msg_id() from concurrent threads; part c: PDU encode/decode, message fragmentation (bytes and file-like), group-length computation and status classification run in 8 threads under a 1 microsecond switch interval and must equal the single-threaded results; part d: one requesting entity with 2-4 associations open at the same time on scripted peers answering with Hypothesis-drawn result codes 0-4: each association proposes all configured classes and uses exactly what its own peer accepted; part e: 2-4 reassemblers (one per association) fed the fragmented messages of their associations in a drawn interleaving, each compared with being fed alone; part f: one long-lived entity on which 300 associations in a row fail in each of 6 ways (unusual sub-item order, abort during negotiation, handler exception, refusal, undecodable message, no acceptable context), an ordinary association after each run must be served; non-trivial = >=2 associations '
                 'overlapping (>=2 baton switches / >=2 clients)')
     ctx.assumptions = ['part a samples OS schedules; part b enumerates interleavings at primitive granularity only',
                        'server-side calls are attributed to associations through the handler thread (one thread per association)',
@@ -829,6 +901,9 @@ def run(ctx):
         ctx.evaluations += n_ops
     except Violation as v:
         ctx.fail(v.key, v.what, v.case)
+    for program in ([(k, 300) for k in FAILURES], [(k, 7) for k in FAILURES] * 8):
+        ctx.case(('long-lived', program), True, labels=['long-lived-server'], sample={'program': program[:6]})
+        ctx.check(long_lived_server, program)
     run_negotiation(ctx, 3000 if ctx.thorough else 200)
     run_decoders(ctx, 4000 if ctx.thorough else 300)
     s = ctx.seed
@@ -851,6 +926,8 @@ def replay(case):
             print('inconclusive: %s' % inc)
     elif case['part'] == 'thread-stress':
         thread_stress(8, 200)
+    elif case['part'] == 'long-lived':
+        long_lived_server([tuple(p) for p in case['program']])
     elif case['part'] == 'decoders':
         decoder_interleaving_case((case['specs'], case['M'], case['order']))
     elif case['part'] == 'negotiation':
